@@ -140,7 +140,10 @@ fn f64_of(line: &str) -> String {
 
 /// End to end: the real macro-generated registry of `hx-sort-e2e`, listed by the
 /// real `Divan::main()` (`--list --sort <attr>` / `--sortr <attr>`) in a child
-/// process.  Case: `<attr> <rev>`.  Output: `<registry items> => <depth:name ...>`.
+/// process.  Case: `<attr> <rev> [cl:<flag>=<attr>,<flag>=<attr>,...]`: without the third
+/// token the command line is the one flag `--sort <attr>` / `--sortr <attr>`; with it the flags
+/// are passed in that order (the first two tokens then state which choice is specified to
+/// win: the last flag).  Output: `<registry items> => <depth:name ...>`.
 fn e2e(line: &str) -> String {
     let t = hxlib::toks(line);
     let exe = std::env::current_exe().expect("exe").with_file_name("hx-sort-e2e");
@@ -152,8 +155,23 @@ fn e2e(line: &str) -> String {
         String::from_utf8(out.stdout).expect("utf8")
     };
     let items = run(&["describe"]).trim().to_string();
-    let flag = if t[1] == "1" { "--sortr" } else { "--sort" };
-    let listing = run(&["--list", flag, t[0]]);
+    let mut args: Vec<String> = vec!["--list".to_string()];
+    match t.get(2).and_then(|x| x.strip_prefix("cl:")) {
+        Some(cl) => {
+            for pair in cl.split(',') {
+                let (flag, attr) = pair.split_once('=').expect("cl pair");
+                assert!(flag == "sort" || flag == "sortr", "flag");
+                args.push(format!("--{flag}"));
+                args.push(attr.to_string());
+            }
+        }
+        None => {
+            args.push(if t[1] == "1" { "--sortr" } else { "--sort" }.to_string());
+            args.push(t[0].to_string());
+        }
+    }
+    let argv: Vec<&str> = args.iter().map(|s| s.as_str()).collect();
+    let listing = run(&argv);
     let mut rows = vec![];
     for l in listing.lines() {
         if l.is_empty() {
